@@ -343,3 +343,5 @@ func vIsInf(a float64) bool        { return a > 1.7976931348623157e308 || a < -1
 
 // vRunGoroutines: natively, give spawned goroutines time to finish.
 func vRunGoroutines() { time.Sleep(100 * time.Millisecond) }
+
+func vTraceCheckAtomic(op, mutex string) {}
